@@ -381,9 +381,9 @@ def fixed_requests():
     # two piecewise linear curves on different grids with common end points (linear interpolation)
     R.append({"kind": "area", "interp": "linear", "p": 0.1, "ta": [0.0, 1.0, 2.0], "va": [1.0, 2.0, 3.0],
               "tb": [0.0, 0.5, 2.0], "vb": [1.0, 1.5, 3.0]})
-    R.append({"kind": "area", "interp": "linear", "p": 0.125, "ta": [0.0, 2.0], "va": [1.0, 1.0],
+    R.append({"kind": "area", "interp": "linear", "p": 0.25, "ta": [0.0, 2.0], "va": [1.0, 1.0],
               "tb": [0.0, 1.0, 2.0], "vb": [1.0, 1.25, 1.0]})    # normalised area == tol exactly
-    R.append({"kind": "area", "interp": "linear", "p": 0.125, "ta": [0.0, 2.0], "va": [1.0, 1.0],
+    R.append({"kind": "area", "interp": "linear", "p": 0.25, "ta": [0.0, 2.0], "va": [1.0, 1.0],
               "tb": [0.0, 1.0, 2.0], "vb": [1.0, 1.5, 1.0]})
     R.append({"kind": "area", "interp": "linear", "p": 0.125, "ta": [0.0, 1.0, 2.0], "va": [1.0, 1.5, 1.0],
               "tb": [0.0, 2.0], "vb": [1.0, 1.0]})
